@@ -13,7 +13,8 @@ EXTRA = {'C08_2': ['C13', 'C19'], 'C07_1': ['C14', 'C04'], 'C04_1': ['C07', 'C14
          'C14_5': ['C02', 'C08'], 'C14_6': ['C02'],
          'C19_5': ['C12', 'C14'], 'C12_5': ['C14'], 'C17_5': ['C15'], 'C16_6': ['C17'], 'C07_5': ['C06', 'C15'], 'C07_6': ['C05', 'C15'], 'C15_5': ['C07', 'C04'], 'C10_6': ['C12'], 'C17_6': ['C03'],
          'C02_7': ['C08'], 'C02_8': ['C13'], 'C05_8': ['C13', 'C19'], 'C06_8': ['C12', 'C19'], 'C08_7': ['C02'], 'C08_8': ['C05'], 'C12_7': ['C06'], 'C12_8': ['C19', 'C13'], 'C13_7': ['C07'], 'C19_7': ['C02'], 'C20_8': ['C09'],
-         'C01_7': ['C03', 'C04'], 'C04_7': ['C03'], 'C14_8': ['C15'], 'C17_8': ['C15'], 'C15_8': ['C07', 'C10'], 'C14_7': ['C13'], 'C16_7': ['C10']}
+         'C01_7': ['C03', 'C04'], 'C04_7': ['C03'], 'C14_8': ['C15'], 'C17_8': ['C15'], 'C15_8': ['C07', 'C10'], 'C14_7': ['C13'], 'C16_7': ['C10'],
+         'C07_7': ['C13', 'C02'], 'C07_8': ['C06'], 'C09_7': ['C13', 'C01'], 'C18_8': ['C03']}
 tier = os.environ.get('VERIF_TIER', 'quick')
 
 def run(mid):
